@@ -323,11 +323,9 @@ def run_case(cfg, ctx, tm, fsr, RRTStar, PathNode):
             if parent.get(b, "?") != a:
                 viol("path", "path_not_parent_chain/" + tagm, a=a, b=b)
                 break
-        # the last tree node of the path is the node nearest to the goal (6-D index metric)
-        P = np.array(placed)
-        d6 = np.linalg.norm(P - np.array(key6(goal)), axis=1)
-        if pk[-2] != placed[int(np.argmin(d6))] and np.sort(d6)[1] - np.sort(d6)[0] > 1e-12:
-            viol("path", "path_does_not_end_at_nearest_node/" + tagm)
+        # (which tree node precedes the goal is not fixed by the property: nearest, cheapest, any)
+        if pk[-2] not in set(placed):
+            viol("path", "path_leaves_the_tree/" + tagm)
 
 
 def run_shard(spec, ctx):
